@@ -483,7 +483,7 @@ def client_write1(rng, defn, hostile):
                 n = len(base64.b64decode(text or ""))
             except Exception:  # noqa
                 n = 0
-            extra = {"size": str(n), "format": ".bin"}
+            extra = {"size": str(n), "format": rng.choice([".bin", ".bin", ".fits", ".fits.z", ".z", ""])}
             if fault == "bad-size":
                 extra["size"] = rng.choice(["999", "abc", "-1", " 3 ", "1_0", "1.0", "", "inf", "Infinity", "1e999", "nan", "0x3", "3.0", "１２"])
             if fault == "missing-size":
@@ -584,12 +584,16 @@ def fault_catalogue(defn):
             for ename in ("E0", "E1", "nope", "", None):
                 for text in texts[mkind]:
                     for size in (sizes if mkind == "blob" and text == texts["blob"][0] else ["3"]):
-                        extra = {"size": size, "format": ".bin"} if mkind == "blob" else None
-                        ch = [comp_codec.part_recipe(one_tag(mkind), ename, text, extra)]
-                        for pname in (v["name"], "NOPE", None):
-                            r = comp_codec.msg_recipe(new_tag(mkind), (), ch)
-                            r["kw"]["name"], r["kw"]["device"] = pname, "D"
-                            out.append(r)
+                        # format strings a client may send: the protocol's compressed-payload suffix `.z` among them
+                        # (the payload here is NOT a zlib stream), empty, odd
+                        fmts = [".bin", ".fits.z", ".z", "", ".fits.Z", "z", ".tar.gz"] if mkind == "blob" and text == texts["blob"][0] and size == "3" else [".bin"]
+                        for fmt in fmts:
+                            extra = {"size": size, "format": fmt} if mkind == "blob" else None
+                            ch = [comp_codec.part_recipe(one_tag(mkind), ename, text, extra)]
+                            for pname in (v["name"], "NOPE", None):
+                                r = comp_codec.msg_recipe(new_tag(mkind), (), ch)
+                                r["kw"]["name"], r["kw"]["device"] = pname, "D"
+                                out.append(r)
             r = comp_codec.msg_recipe(new_tag(mkind), (), [])          # no children
             r["kw"]["name"], r["kw"]["device"] = v["name"], "D"
             out.append(r)
